@@ -266,8 +266,12 @@ _built = {}
 _build_lock = threading.Lock()
 
 
-def build_harness(bins, features=None, tag="default"):
-    """cargo build (release profile, hooks on via .cargo/config.toml) against /repo's working tree."""
+def build_harness(bins, features=None, tag="default", checked=False):
+    """cargo build (release profile, hooks on via .cargo/config.toml) against /repo's working tree.
+    checked=True: the same build with integer overflow checks and debug assertions switched on (what `cargo test` users run): a
+    change that only panics there - an overflowing `t + limit`, a new debug_assert - is invisible in the plain release build."""
+    if checked:
+        tag = tag + "-checked"
     with _build_lock:
         key = (tuple(sorted(bins)), tag)
         if key in _built:
@@ -281,6 +285,9 @@ def build_harness(bins, features=None, tag="default"):
         t0 = time.time()
         e = dict(os.environ)
         e["CARGO_NET_OFFLINE"] = "true"
+        if checked:
+            e["CARGO_PROFILE_RELEASE_OVERFLOW_CHECKS"] = "true"
+            e["CARGO_PROFILE_RELEASE_DEBUG_ASSERTIONS"] = "true"
         p = subprocess.run(cmd, cwd=HARNESS, stdout=subprocess.PIPE, stderr=subprocess.STDOUT, text=True, env=e)
         if p.returncode != 0:
             raise ToolError("harness build failed (a change to a public signature of rrtk, or a compile error in it):\n" + p.stdout[-3000:])
@@ -310,6 +317,19 @@ def run_bin(bindir, binname, args, timeout=900, stdin=None, env=None):
         raise ToolError("%s %s failed rc=%s: %s %s" % (binname, " ".join(map(str, args)), p.returncode,
                                                       p.stderr[-2000:], "\n".join(other[-5:])))
     return mism, summary, other
+
+
+def run_bin_checked_too(binname, args, features=None, tag="default", timeout=900):
+    """replay with the plain release build and again with the overflow-checking build; mismatches of the second run that the first
+    did not show are appended (marked with "build")"""
+    mism, summary, other = run_bin(build_harness([binname], features, tag), binname, args, timeout=timeout)
+    m2, s2, _ = run_bin(build_harness([binname], features, tag, checked=True), binname, args, timeout=timeout)
+    seen = {m.get("line") for m in mism}
+    extra = [dict(m, build="overflow checks and debug assertions on") for m in m2 if m.get("line") not in seen]
+    summary = dict(summary)
+    summary["checked_build_replays"] = s2.get("replays", s2.get("behaviours", 0))
+    summary["checked_build_only_mismatches"] = len(extra)
+    return mism + extra, summary, other
 
 
 def read_ndjson(path, limit=None):
